@@ -1,7 +1,7 @@
 (* C13 - Read size limit is enforced on frames, fragments and inflated size. *)
 From Gws Require Import Lib.Base Spec.MaskSpec Spec.Rfc6455 Spec.Rfc6455Recv Model.Header Model.CloseCode Model.Reader
   Proofs.FrameProofs Proofs.ReaderProofs Proofs.ReaderRefine Proofs.FragmentProofs
-  Model.LimitReader Proofs.LimitReaderProofs Gen.Funcs Proofs.GenFuncsProofs.
+  Model.LimitReader Proofs.LimitReaderProofs Gen.Funcs Proofs.GenLimitProofs.
 Local Open Scope N_scope.
 
 Section C13.
